@@ -1,4 +1,5 @@
 import Siot.Lemmas.Pb
+import Siot.Lemmas.PbBytes
 import Siot.Gen.Pb
 /-
 C12 — Wire encodings are lossless and malformed bytes are rejected cleanly.
@@ -69,6 +70,123 @@ theorem c12_node_roundtrip (n : Node) (hh : n.hash < 4294967296)
   refine ⟨{ id := n.id, type := n.type, hash := toInt32 n.hash, parent := n.parent, points := ps, edgePoints := es },
     by simp only [toPbNode, hps1, hes1], ?_⟩
   simp only [pbToNode, hps2, hes2, toInt32_hash n.hash hh]
+
+/-! ### the same round trips through the bytes on the wire -/
+
+/-- what the system puts into a point: a time in the Timestamp range, a tombstone count that fits an int32, text
+fields that are valid UTF-8 (protobuf-go refuses to marshal anything else), a 64-bit value pattern, and less than
+2^63 bytes of strings and data -/
+structure PointOk (p : Point) : Prop where
+  time : WireTime p
+  tomb : Int32 p.tomb
+  type : utf8Valid p.type = true
+  key : utf8Valid p.key = true
+  text : utf8Valid p.text = true
+  origin : utf8Valid p.origin = true
+  value : p.value < 18446744073709551616
+  size : p.type.length + p.text.length + p.key.length + p.origin.length + p.data.length < 9223372036854775808
+
+def pbOf (p : Point) : PbPoint :=
+  { type := p.type, key := p.key, value := p.value, text := p.text, time := some ⟨p.sec, p.nsec⟩,
+    tombstone := toInt32 (ofInt64 p.tomb), data := p.data, origin := p.origin }
+
+theorem toPb_ok (p : Point) (h : PointOk p) : toPb p = .ok (pbOf p) := by
+  simp [toPb, pbOf, validTs_of_wire p h.time]
+
+theorem pbOf_ok (p : Point) (h : PointOk p) : PbPointOk (pbOf p) ∧ SmallPoint (pbOf p) := by
+  have hs := h.size
+  obtain ⟨t1, t2, t3, t4⟩ := h.time
+  refine ⟨⟨h.type, h.text, h.key, h.origin, h.value, ?_, ?_, ?_⟩, ?_⟩
+  · show Int32 (toInt32 (ofInt64 p.tomb))
+    rw [toInt32_ofInt64 _ h.tomb]; exact h.tomb
+  · intro t ht
+    simp only [pbOf, Option.some.injEq] at ht
+    subst ht
+    unfold minValidSeconds at t1
+    unfold maxValidSeconds at t2
+    exact ⟨⟨by show (-9223372036854775808 : Int) ≤ p.sec; omega, by show p.sec ≤ 9223372036854775807; omega⟩,
+      ⟨by show (-2147483648 : Int) ≤ p.nsec; omega, by show p.nsec ≤ 2147483647; omega⟩⟩
+  · simp only [pbOf]; omega
+  · exact hs
+
+/-- **C12 point round trip through the wire bytes.** For every well-formed point, `ToPb` succeeds, the bytes
+`proto.Marshal` writes for the result parse and decode (`proto.Unmarshal`) to exactly that message, and `PbToPoint`
+gives back the original point, field for field. -/
+theorem c12_point_bytes_roundtrip (p : Point) (h : PointOk p) :
+    ∃ q, toPb p = .ok q ∧ pointOfBytes (encPoint q) = some q ∧ pbToPoint q = .ok p := by
+  obtain ⟨q, hq1, hq2⟩ := c12_point_roundtrip p h.time h.tomb
+  have := toPb_ok p h
+  rw [this] at hq1
+  cases hq1
+  exact ⟨pbOf p, this, pointOfBytes_encPoint _ (pbOf_ok p h).1, hq2⟩
+
+theorem mapRes_toPb (ps : List Point) (h : ∀ p ∈ ps, PointOk p) : mapRes toPb ps = .ok (ps.map pbOf) :=
+  mapRes_ok toPb pbOf ps (fun p hp => toPb_ok p (h p hp))
+
+theorem mapRes_back (ps : List Point) (h : ∀ p ∈ ps, PointOk p) : mapRes pbToPoint (ps.map pbOf) = .ok ps := by
+  induction ps with
+  | nil => rfl
+  | cons p ps ih =>
+    obtain ⟨q, hq1, hq2⟩ := c12_point_roundtrip p (h p (by simp)).time (h p (by simp)).tomb
+    rw [toPb_ok p (h p (by simp))] at hq1
+    cases hq1
+    simp only [List.map_cons, mapRes, hq2, ih (fun x hx => h x (by simp [hx]))]
+
+/-- **C12 point-list round trip through the wire bytes** (`Points.ToPb` / `PbDecodePoints`, the payload of every
+point message on the bus): any list of well-formed points, of any length, is decoded from its own bytes to the same
+list in the same order. -/
+theorem c12_points_bytes_roundtrip (ps : List Point) (h : ∀ p ∈ ps, PointOk p) :
+    ∃ qs, mapRes toPb ps = .ok qs ∧ pbDecodePoints (encPoints qs) = .ok ps := by
+  refine ⟨ps.map pbOf, mapRes_toPb ps h, ?_⟩
+  unfold pbDecodePoints
+  rw [points_bytes (ps.map pbOf) (by
+    intro q hq
+    simp only [List.mem_map] at hq
+    obtain ⟨p, hp, rfl⟩ := hq
+    exact pbOf_ok p (h p hp))]
+  exact mapRes_back ps h
+
+/-- a node as the system produces it -/
+structure NodeOk (n : Node) : Prop where
+  id : utf8Valid n.id = true
+  type : utf8Valid n.type = true
+  parent : utf8Valid n.parent = true
+  hash : n.hash < 4294967296
+  lens : n.id.length < 18446744073709551616 ∧ n.type.length < 18446744073709551616 ∧ n.parent.length < 18446744073709551616
+  points : ∀ p ∈ n.points ++ n.edgePoints, PointOk p
+
+theorem toInt32_int32 (n : Nat) : Int32 (toInt32 n) := by
+  unfold toInt32 Int32
+  simp only []
+  have := Nat.mod_lt n (show 0 < 4294967296 by decide)
+  split <;> omega
+
+/-- **C12 node round trip through the wire bytes** (`Node.ToPbNode` + `proto.Marshal` / `PbDecodeNode`): id, type,
+parent, hash and both point lists of any length come back from the node's own bytes. -/
+theorem c12_node_bytes_roundtrip (n : Node) (h : NodeOk n) :
+    ∃ q, toPbNode n = .ok q ∧ pbDecodeNode (encNode q) = .ok n := by
+  have hp1 : ∀ p ∈ n.points, PointOk p := fun p hp => h.points p (by simp [hp])
+  have hp2 : ∀ p ∈ n.edgePoints, PointOk p := fun p hp => h.points p (by simp [hp])
+  let q : PbNode := { id := n.id, type := n.type, hash := toInt32 n.hash, parent := n.parent,
+                      points := n.points.map pbOf, edgePoints := n.edgePoints.map pbOf }
+  have hq : toPbNode n = .ok q := by
+    simp only [toPbNode, mapRes_toPb _ hp1, mapRes_toPb _ hp2, q]
+  have hok : PbNodeOk q := by
+    refine ⟨h.id, h.type, h.parent, toInt32_int32 _, h.lens, ?_⟩
+    intro x hx
+    simp only [q, List.mem_append, List.mem_map] at hx
+    rcases hx with ⟨p, hp, rfl⟩ | ⟨p, hp, rfl⟩
+    · exact pbOf_ok p (hp1 p hp)
+    · exact pbOf_ok p (hp2 p hp)
+  refine ⟨q, hq, ?_⟩
+  unfold pbDecodeNode
+  rw [nodeOfBytes_encNode q hok]
+  simp only [pbToNode, q, mapRes_back _ hp1, mapRes_back _ hp2, toInt32_hash n.hash h.hash]
+
+/-- the hypotheses are satisfiable by an ordinary point (non-vacuity) -/
+example : PointOk { type := [0x76], key := [0x30], value := 0x3ff0000000000000, text := [], sec := 1700000000,
+                    nsec := 5, tomb := 1, origin := [], data := [1, 2] } := by
+  refine ⟨⟨?_, ?_, ?_, ?_⟩, ⟨?_, ?_⟩, ?_, ?_, ?_, ?_, ?_, ?_⟩ <;> decide
 
 /-- **C12 decoders are total.** Whatever bytes arrive — for points, a node, a node reply (with or
 without a node), node lists, serial points — the decoder returns a value or an error; the outcome
